@@ -45,8 +45,8 @@ def Variants(prog, rng, limit):
 
 
 def Cases(tier):
-  n = int(os.environ.get('VERIF_N', 0)) or (60 if tier == 'quick' else 1200)
-  limit = 7 if tier == 'quick' else 40
+  n = int(os.environ.get('VERIF_N', 0)) or (60 if tier == 'quick' else 400)
+  limit = 7 if tier == 'quick' else 20
   rng = common.Rng(PROP)
   cases = []
   n_fam = (2 if tier == 'quick' else 6) * len(families.SEM_FAMILIES)
